@@ -86,4 +86,6 @@ Definition dispatch (name : list Z) (a : sexp) : sexp :=
   else if name_is name "parse_c2s" then d_parse_c2s a
   else if name_is name "parse_server" then d_parse_server a
   else if name_is name "rfb_run" then d_rfb_run a
+  else if name_is name "rfb_script" then d_rfb_script a
+  else if name_is name "screen_ops" then d_screen_ops a
   else sErr.
